@@ -357,7 +357,7 @@ class Unit:
                 elif kw == 'loop':
                     toks = rest.split()
                     flags, kv = _kv(toks[1:])
-                    ent = dict(n=int(toks[0]), iter=kv.get('iter'), hoist=kv.get('hoist'), desugar=kv.get('desugar'), lines=[])
+                    ent = dict(n=int(toks[0]), iter=kv.get('iter'), hoist=kv.get('hoist'), desugar=kv.get('desugar'), index=kv.get('index'), keys=kv.get('keys'), lines=[])
                     spec['loops'][ent['n']] = ent
                     cur = ent['lines']
                 elif kw == 'closure':
@@ -384,7 +384,7 @@ class Unit:
                     mm = re.match(r'"((?:[^"\\]|\\.)*)"\s*=>\s*"((?:[^"\\]|\\.)*)"\s*::\s*(.*)$', rest)
                     if not mm:
                         raise TemplateError('bad replace: %s' % rest)
-                    spec['replaces'].append((mm.group(1).replace('\\"', '"'), mm.group(2).replace('\\"', '"'), mm.group(3)))
+                    spec['replaces'].append((mm.group(1).replace('\\"', '"').replace('<NL>', '\n'), mm.group(2).replace('\\"', '"').replace('<NL>', '\n'), mm.group(3)))
                     cur = None
                 else:
                     raise TemplateError('unknown fn sub-directive %r' % kw)
@@ -601,6 +601,44 @@ class Unit:
             newhead = 'let mut %s = %s;\n%sloop ' % (it, expr, indent)
             first = ' let nx__ = %s.next(); let %s = match nx__ { Some(x__) => x__, None => break, };' % (it, mm0.group(1))
             log.append(dict(rule='R7', before=norm_ws(body[p0:ob0 + 1]), after=norm_ws(newhead + '{' + first)))
+            body = body[:p0] + newhead + '{' + first + body[ob0 + 1:]
+        # R12: `for PAT in &mut V { B }` over a Vec -> `let mut I = 0; while I < V.len() { let PAT = &mut V[I]; I += 1; B }`
+        # (Verus has no `continue` in for-loops and no model of slice::IterMut; the index form visits the same
+        # elements in the same order, and the increment precedes B so that `continue` keeps its meaning)
+        # R13: `for (&K, PAT) in &mut M { B }` over a HashMap -> a snapshot of the keys (assumed: every key once) walked by
+        # index, `let K = KS[I]; let PAT = M.get_mut(&K).unwrap();` -- the body cannot add or remove keys while the
+        # iterator borrows the map, so every entry is still visited exactly once; visiting order is unspecified in both
+        for n_, ent in sorted(spec['loops'].items()):
+            if not (ent.get('index') or ent.get('keys')):
+                continue
+            sn0 = Snippet(body)
+            loops0 = sn0.loops(0, len(body))
+            if n_ < 1 or n_ > len(loops0) or loops0[n_ - 1][1] != 'for':
+                continue
+            p0, kind0, ob0 = loops0[n_ - 1]
+            mm0 = re.match(r'for\s+(.*?)\s+in\s+&mut\s+', body[p0:ob0], re.S)
+            if not mm0:
+                continue
+            expr = body[p0 + mm0.end():ob0].strip()
+            pat = mm0.group(1)
+            ls = sn0.line_start(p0)
+            indent = body[ls:p0]
+            if ent.get('index'):
+                iv = ent['index']
+                newhead = 'let mut %s: usize = 0;\n%swhile %s < %s.len() ' % (iv, indent, iv, expr)
+                first = ' let %s = &mut %s[%s]; %s += 1;' % (pat, expr, iv, iv)
+                rule = 'R12'
+            else:
+                ks = ent['keys']
+                iv = ks + '_i'
+                mk = re.match(r'\(\s*&(\w+)\s*,\s*(\w+)\s*\)$', pat)
+                if not mk:
+                    continue
+                kname, vname = mk.group(1), mk.group(2)
+                newhead = 'let %s = map_keys_snapshot(&%s);\n%slet mut %s: usize = 0;\n%swhile %s < %s.len() ' % (ks, expr, indent, iv, indent, iv, ks)
+                first = ' let %s = %s[%s]; %s += 1; let %s = map_get_mut_present(&mut %s, &%s);' % (kname, ks, iv, iv, vname, expr, kname)
+                rule = 'R13'
+            log.append(dict(rule=rule, before=norm_ws(body[p0:ob0 + 1]), after=norm_ws(newhead + '{' + first)))
             body = body[:p0] + newhead + '{' + first + body[ob0 + 1:]
         for anchor, prefix, mut in spec['chains']:
             body, err = R.r8_let_chain(body, anchor, prefix, log, mut)
